@@ -2,11 +2,35 @@
 
 ENGINES = {
     'pwdsim': {'sources': ['pwdsim.c']},
+    'streamsim': {'sources': ['streamsim.c']},
 }
 
 REAL_ALL = ['all of /repo/src compiled from the current working tree with -DBEE2_VERIF']
 
 CHECKS = {
+    'C10': {
+        'level': 'exploration',
+        'legs': [
+            {'engine': 'streamsim', 'config': 'asan', 'runs': [300000, 6000000]},
+            {'engine': 'streamsim', 'config': 'asan32', 'runs': [100000, 2000000]},
+            {'engine': 'streamsim', 'config': 'plain', 'runs': [600000, 60000000]},
+        ],
+        'rule': ('a case is one simulated stream for one of 18 Start/Step/Get bundles: message of 0..~4 internal blocks, cut into 1..7 '
+                 'fragments by the simulated source (boundaries biased to block-1/block/block+1/0, empty fragments where the header allows), '
+                 'with mid-stream Get/Verify probes and state migrations (copy to a fresh exact-size block, old block scribbled and released) '
+                 'interleaved; distinct = distinct (bundle, sequence of (offset mod block, length mod block, blocks), probe kinds, migrations) signatures; '
+                 'a run with a single whole-message delivery and no event is still counted (it is the degenerate split)'),
+        'real': REAL_ALL,
+        'stub': ['the data source (fragmentation), the caller process that checkpoints/relocates states'],
+        'assumptions': [
+            'oracle = the library\'s own one-shot high-level function over the concatenation (same build)',
+            'splits restricted to those each header permits (ECB/CBC fragments >= 16 with ragged tail last, BDE whole blocks, SDE whole sectors)',
+            'migration applied only to bundles whose header declares the state copyable (belt, brng, botp); brngHMAC iv buffer kept alive only when iv_len > 64 as the header requires',
+            'brngCTR driven with zero-filled buffers',
+            'a 10^-digit OTP collision is computed, not assumed away',
+        ],
+        'mandatory_probes': {'any': ['probe.exact_fill', 'probe.one_short', 'probe.one_over', 'probe.get_on_partial_block', 'fault.state_migrated', 'fault.empty_fragment']},
+    },
     'C20': {
         'level': 'exploration',
         'legs': [
@@ -41,7 +65,6 @@ NOT_APPLICABLE = {
     'C07': 'not yet built in this tree (rider on faultcall/streamsim/protosim baselines pending)',
     'C08': 'decoder totality over all byte strings is input enumeration (fuzzing/BMC territory), nothing to schedule or fault',
     'C09': 'not yet built in this tree (faultcall engine pending)',
-    'C10': 'not yet built in this tree (streamsim engine pending)',
     'C11': 'buffer placement is an argument of a pure call; nothing for a scheduler or fault injector to decide',
     'C12': 'membership decisions of pure validators (priRMTest draws bases from a clock, but the property quantifies over numbers)',
     'C13': 'belsShare/belsRecover are single-shot pure functions; subset and order are arguments',
@@ -54,6 +77,15 @@ NOT_APPLICABLE = {
 }
 
 MANIFEST_TEXT = {
+    'C10': {
+        'text': ('Seeded search over stream histories: the simulator plays the data source and the hosting process of 18 Start/Step/Get bundles '
+                 '(belt ECB/CBC/CFB/CTR/BDE/SDE/MAC/Hash/HMAC/DWP/CHE/KRP, bash hash and automaton, brng CTR/HMAC, botp HOTP/TOTP), fragments the data, '
+                 'asks for intermediate values and relocates the state between any two calls; every output and probe is compared with the one-shot function. '
+                 'Runs under ASan with exact-size states. Evidence, not proof.'),
+        'design_ref': 'DESIGN.md §3 C10',
+        'note': 'Trusted: the one-shot functions of the same build as reference (their correctness is C01/C03, not claimed here); the per-bundle call grammar transcribed from the headers.',
+        'technique': 'deterministic simulation: seeded fragmentation/probe/state-migration histories vs one-shot reference',
+    },
     'C20': {
         'text': ('Seeded search over event histories of the real btokPwdTransition, including the fault "session lost" '
                  '(volatile authentication reset, persistent PIN state kept), checked step by step by six temporal monitors '
